@@ -1,11 +1,23 @@
 #!/bin/bash
-# usage: eval_seed.sh <seed dir with patch.diff> <check id>...  — applies the change to /repo, runs the quick checks, reverts.
+# usage: eval_seed.sh <seed dir with patch.diff> <check id>...
+# Applies the change to a scratch worktree of /repo's HEAD (outside /repo and
+# /verif), runs the quick checks against it (VERIF_REPO), removes the worktree.
+# EVAL_IN_REPO=1: apply to /repo itself instead (git -C /repo apply; checkout after).
 set -u
 D=$1; shift
 cd /verif
-git -C /repo diff --quiet || { echo "/repo not clean"; exit 2; }
-git -C /repo apply $D/patch.diff || { echo "APPLY-FAILED"; exit 2; }
-trap 'git -C /repo checkout -- . ; git -C /repo clean -fdq' EXIT
+if [ "${EVAL_IN_REPO:-0}" = 1 ]; then
+  git -C /repo diff --quiet || { echo "/repo not clean"; exit 2; }
+  git -C /repo apply $D/patch.diff || { echo "APPLY-FAILED"; exit 2; }
+  trap 'git -C /repo checkout -- . ; git -C /repo clean -fdq' EXIT
+  export VERIF_REPO=/repo
+else
+  WT=/tmp/eval_wt_$$
+  git -C /repo worktree add -q --detach $WT HEAD || exit 2
+  trap 'git -C /repo worktree remove --force $WT' EXIT
+  git -C $WT apply $D/patch.diff || { echo "APPLY-FAILED"; exit 2; }
+  export VERIF_REPO=$WT
+fi
 for c in "$@"; do
   out=$(./check.sh $c quick 2>&1)
   rc=$?
